@@ -293,13 +293,16 @@ def batch_judge(frames, out, residue):
 def replay(ctx, payload):
     rec = payload.get("failure") or {}
     case = rec.get("case") or {}
-    if not case.get("frames"):
+    if not case.get("frames") and not case.get("script"):
         raise core.Infra("nothing to replay")
     stream = case.get("stream") or ""
     ctx.count("replay", "replay")
     if stream.startswith("model/"):
         # found by the model-side streams: their oracle (and the comparison with the model) decides
         from . import c10_model
+        if case.get("script"):
+            c10_model.replay_script(ctx, case)
+            return
         c10_model.replay_frames(ctx, c10_model.unhex(case["frames"]), case.get("template") or "replay", stream[6:],
                                 [c10_model.unhex(h) for h in case.get("history", [])])
         return
